@@ -18,9 +18,11 @@ from . import C18
 PAIRS = [('sse2', 'sse2+assert'), ('scalar', 'scalar+assert'), ('coresimd', 'coresimd+assert')]
 
 def build(idx):
+    """one lemma per function pair whose closures differ: the computable check of coq/theories/Erase.v (the asserting body is the
+    plain body plus SAssert statements, through every differing callee) discharged by vm_compute and lifted by erase_check_sound"""
     files = {}; seen = {}; order = []; notes = {'identical': 0, 'untranslated': [], 'unmatched': 0}; cover = []; n = 0
     for plain, asrt in PAIRS:
-        structs = idx.structs(plain); pa = {f['key']: f for f in idx.fns(asrt)}
+        pa = {f['key']: f for f in idx.fns(asrt)}
         for f in idx.fns(plain):
             if not C18.in_scope(f): continue
             fa = pa.get(f['key'])
@@ -28,35 +30,48 @@ def build(idx):
             if f['fid'] is None or fa['fid'] is None:
                 notes['untranslated'].append('%s %s' % (plain, f['key'])); continue
             if f['fid'] == fa['fid']: notes['identical'] += 1; continue
-            if f['trait'] and f['trait'][0] in ('Display', 'Debug', 'Hash', 'Sum', 'Product', 'Deref', 'DerefMut', 'AsRef', 'AsMut', 'IndexMut'): continue
-            if f['self_mut'] and f['ret'] != 'unit': continue
-            # argument trees; usize / enum parameters as literals; slices skipped (C18 covers their panics)
-            vs = []; argsets = [[]]; ok = True
-            allp = ([f['self']] if f['has_self'] else []) + [p[1] for p in f['params']]
-            for k, t in enumerate(allp):
-                pre = 'abcdefghijkl'[k]
-                if t == 'usize': argsets = [a + ['VI USize %d' % v] for a in argsets for v in range(5)]
-                elif isinstance(t, dict) and t.get('n') == 'EulerRot': argsets = [a + ['VI U32 %d' % v] for a in argsets for v in range(24)]
-                else:
-                    try: tr = sym(structs, t, pre, vs)
-                    except SymErr: ok = False; break
-                    argsets = [a + [tree_coq(tr)] for a in argsets]
-            if not ok: continue
             cover.append((plain, f))
-            for args in argsets:
-                a = '[%s]' % '; '.join(args)
-                stmt = 'match run O tbl 200 %d%%positive %s with Ok v => run O tbl 200 %d%%positive %s = Ok v | _ => True end' % (fa['fid'], a, f['fid'], a)
-                key = stmt
-                if key in seen: seen[key].meta['covers'].append('%s:%s' % (plain, f['key'])); continue
-                n += 1; lem = core.Lemma('era_%d' % n, vs, stmt, '', meta={'cfg': plain, 'key': f['key'], 'file': f['file'], 'fid': f['fid'], 'did': f['did'], 'covers': ['%s:%s' % (plain, f['key'])], 'spec': 'assert erasure'})
-                lem.intstd = 'concrete' if any('VI U32' in x for x in args) else True; lem.raw_stmt = True
-                seen[key] = lem; order.append(lem)
-    nfiles = max(1, (len(order) + 39) // 40)
+            stmt = 'forall (O:Ops) fuel args v, run O tbl fuel %d%%positive args = Ok v -> run O tbl fuel %d%%positive args = Ok v' % (fa['fid'], f['fid'])
+            if stmt in seen: seen[stmt].meta['covers'].append('%s:%s' % (plain, f['key'])); continue
+            n += 1; lem = EraLemma('era_%d' % n, fa['fid'], f['fid'], stmt, {'cfg': plain, 'key': f['key'], 'file': f['file'], 'fid': f['fid'], 'afid': fa['fid'], 'did': f['did'], 'covers': ['%s:%s' % (plain, f['key'])], 'spec': 'assert erasure'})
+            seen[stmt] = lem; order.append(lem)
+    nfiles = max(1, min(16, (len(order) + 19) // 20))
     for k, lem in enumerate(order): files.setdefault('Era_%03d' % (k % nfiles), []).append(lem)
     notes['covered_functions'] = len(cover); notes['distinct_statements'] = n; notes['untranslated_count'] = len(notes['untranslated']); notes['untranslated'] = notes['untranslated'][:30]
     return files, notes, cover
 
-HDR = core.HDR.replace('Import Base Spec.', 'Import Base Spec Sem.')
+class EraLemma(core.Lemma):
+    def __init__(self, name, afid, pfid, stmt, meta):
+        core.Lemma.__init__(self, name, [], stmt, '', meta=meta); self.afid = afid; self.pfid = pfid; self.stmt = stmt; self.raw_stmt = True
+    def statement(self): return self.stmt
+    def search(self, idx, seed, n=120):
+        """the same inputs on the crate built with and without glam-assert: an input on which the asserting build returns a value that
+        the plain build does not return"""
+        m = self.meta; plain = m['cfg']; asrt = plain + '+assert'; errs = []
+        f = next((x for x in idx.fns(plain) if x['key'] == m['key']), None); fa = next((x for x in idx.fns(asrt) if x['key'] == m['key']), None)
+        if f is None or fa is None or f['did'] is None or fa['did'] is None or f['by_ref'] or f['generic']: return None, ['no public entry point for the search']
+        g = core.Gen(seed); structs = idx.structs(plain); enums = idx.enums(plain)
+        tys = ([f['self']] if f['has_self'] else []) + [p[1] for p in f['params']]
+        cases = []
+        for _ in range(n):
+            try: parts = [core.gen_value(structs, enums, t, g) for t in tys]
+            except SymErr as e: return None, ['input generation: %r' % e]
+            cases.append([w for ws, _ in parts for w in ws])
+        lp = ['%d %s' % (f['did'], ' '.join('%x' % w for w in ws)) for ws in cases]; la = ['%d %s' % (fa['did'], ' '.join('%x' % w for w in ws)) for ws in cases]
+        op = core.run_driver(core.build_driver(plain), lp); oa = core.run_driver(core.build_driver(asrt), la)
+        ret = f['self'] if (f['self_mut'] and f['ret'] == 'unit') else f['ret']
+        for ws, x, y in zip(cases, op, oa):
+            if not y.startswith('OK'): continue
+            try: cx, cy = core.canon_driver(structs, enums, ret, x), core.canon_driver(idx.structs(asrt), idx.enums(asrt), ret, y)
+            except SymErr: cx, cy = x, y
+            if cx != cy:
+                return {'input_words': ['%x' % w for w in ws], 'function': m['key'], 'cfg': plain, 'plain_build': x, 'assert_build': y, 'confirmed_on_crate': True,
+                        'how_found': 'the same %d random calls on the drivers built from the working tree with and without glam-assert' % n}, errs
+        return None, errs + ['%d random calls agree on the two builds' % n]
+    def text(self):
+        return 'Lemma %s : %s.\nProof. apply (erase_check_sound tbl 400%%nat %d%%positive %d%%positive). Timeout %d (vm_compute; reflexivity). Qed.' % (self.name, self.stmt, self.afid, self.pfid, core.LEMMA_TIMEOUT[0])
+
+HDR = core.HDR.replace('Import Base Spec.', 'Import Base Spec Sem Erase.')
 
 # documented precondition violations: (function key, argument words builder) must panic with glam-assert and not without
 def f32w(x): return core.f32b(x)
